@@ -43,6 +43,27 @@ namespace drv {
    unsigned p_ref_sequence(const Expr& a, const Expr& b, std::size_t k, std::size_t j) { auto* s = new impl::ref_sequence<Expr>{ }; s->push_back(&a); s->push_back(&b); const Expr* el[2] = { &a, &b }; return at_two(static_cast<const Sequence<Expr>&>(*s), 2, el, k, j); }
    unsigned p_obj_list(impl::Lexicon& lx, const Region& r, const Name& n, const Type& t, const Name& m, const Type& u, std::size_t k, std::size_t j)
    { auto* b = lx.make_block(r); const Handler* el[3]; el[0] = b->new_handler(n, t); el[1] = b->new_handler(m, u); el[2] = b->new_handler(n, u); return at_two(static_cast<const ipr::Block&>(*b).handlers(), 3, el, k, j); }
+   // read / append interleaved: read the current last element, append, read the new last one and the old ones again
+   unsigned p_obj_list_interleaved(impl::Lexicon& lx, const Region& r, const Name& n, const Type& t, const Name& m, const Type& u, std::size_t k)
+   {
+      auto* b = lx.make_block(r); const ipr::Sequence<Handler>& hs = static_cast<const ipr::Block&>(*b).handlers(); unsigned bad = 0;
+      const Handler* el[3];
+      el[0] = b->new_handler(n, t); if (hs.size() != 1 || &*hs.position(0) != el[0]) bad |= 1u;
+      el[1] = b->new_handler(m, u); if (hs.size() != 2 || &*hs.position(1) != el[1] || &*hs.position(0) != el[0]) bad |= 8u;
+      if (&*hs.position(1) != el[1]) bad |= 8u;                                       // the current last element, once more
+      el[2] = b->new_handler(n, u); if (hs.size() != 3 || &*hs.position(2) != el[2]) bad |= 8u;     // ... then the element appended after that read
+      if (&*hs.position(1) != el[1] || &*hs.position(0) != el[0] || &*hs.position(2) != el[2]) bad |= 8u;
+      return bad | at_index(hs, 3, el, k);
+   }
+   // a secondary template declared under a name whose first declaration is NOT a template: primary_template() has no template to report
+   unsigned p_secondary_template_after_var(const Name& n, const Type& t, const ipr::Forall& q)
+   {
+      auto& r = *new impl::Region{ Optional<ipr::Region>{ } };
+      (void)r.declare_var(n, t);
+      const ipr::Template& s = *r.declare_secondary_template(n, q);
+      const ipr::Template& p = s.primary_template();                                  // refused (logic error) unless a primary template exists
+      return p.category != Category_code::Template;                                   // whatever is returned must at least BE a template
+   }
    unsigned p_obj_sequence(impl::Lexicon& lx, const Region& r, Enum::Kind kd, const Name& n, const Name& m, std::size_t k, std::size_t j)
    { auto* e = lx.make_enum(r, kd); const Enumerator* el[2]; el[0] = e->add_member(n); el[1] = e->add_member(m); return at_two(static_cast<const ipr::Enum&>(*e).members(), 2, el, k, j); }
    unsigned p_empty_sequence(impl::Lexicon& lx, const Region& r, const Name& n, const Type& t, std::size_t k)
